@@ -516,6 +516,10 @@ package eval
 //@   ensures [C07] kept: forall key string :: {key in pe.representativePeersMap} {old(key in pe.representativePeersMap)} old(key in pe.representativePeersMap) ==>
 //@         (key in pe.representativePeersMap && pe.representativePeersMap[key] == old(pe.representativePeersMap[key]))
 //@   ensures [C07] nilsel: objSelectors == nil ==> res != nil
+//@   ensures [C07] keyed: (res == nil && objSelectors != nil) ==> (exists ns *metav1.LabelSelector :: ns != nil
+//@         && (objSelectors.NsSelector != nil ==> ns == objSelectors.NsSelector)
+//@         && (objSelectors.NsSelector == nil ==> (len(ns.MatchExpressions) == 0 && "kubernetes.io/metadata.name" in ns.MatchLabels && ns.MatchLabels["kubernetes.io/metadata.name"] == podNs))
+//@         && ((selKey(ns) + "/") + selKey(objSelectors.PodSelector)) in pe.representativePeersMap)
 
 // the fake ingress-controller pod is a pod like any other for the exposure bookkeeping: a policy may select it, so its
 // accumulators must be usable (D16: they were left nil and `list --exposure` panicked)
